@@ -7,6 +7,7 @@ fn main() {
     let cli = parse_cli();
     match cli.domain.as_str() {
         "sync" => sync::run(&cli),
+        "sched" => sync::run_sched(&cli),
         d => {
             eprintln!("unknown domain {d}");
             std::process::exit(2);
